@@ -61,6 +61,95 @@ CHECKS = {
         explanation="Same unit as C05 without the well-formedness hypothesis: no slice/index/overflow obligation can fail and "
                     "the loop terminates for every byte string.",
     ),
+    "C08": dict(
+        kani=[dict(crate="nexrad-decode", files=["c08.rs"], harnesses=[
+            dict(name="c08_get_datetime_contract", what="injected contract on util::get_datetime: all d in 1..=65535, all ms < 86_400_000: timestamp()==(d-1)*86400+t/1000, subsec millis==t%1000; chrono executed symbolically"),
+            dict(name="c08_get_datetime_contract_minutes", what="same contract through Duration::minutes, all u16 minutes below one day"),
+            dict(name="c08_get_datetime_total", what="no panic for all u16 x u32 ms and all u16 x u16 minutes"),
+            dict(name="c08_accessor_message_header", what="MessageHeader::date_time == get_datetime(date, ms(time)) for all field values"),
+            dict(name="c08_accessor_drd_header", what="digital_radar_data::Header::date_time == get_datetime(date, ms(time))"),
+            dict(name="c08_accessor_cfm_header", what="clutter_filter_map::Header::date_time == get_datetime(date, minutes(time))"),
+            dict(name="c08_accessor_rda_status", what="both generation date-times == get_datetime(own date, minutes(own time))"),
+        ]),
+        dict(crate="nexrad-data", files=["c08.rs"], no_default_features=True, features=["decode"], harnesses=[
+            dict(name="c08d_get_datetime_contract", what="the data crate's own copy of get_datetime: same contract, full domain"),
+            dict(name="c08d_get_datetime_total", what="no panic, all u16 x u32"),
+            dict(name="c08d_volume_header_date_time", what="volume::Header::date_time == get_datetime(date as u16, ms(time)) through the real 24-byte deserialize"),
+        ])],
+        trusted_base=KANI_TRUST + ["kissat SAT solver (Kani bundle)"],
+        explanation="Kani function contract on the two get_datetime copies proved over the full domain with chrono executed "
+                    "symbolically; every accessor proved equal to get_datetime(own date field, own time field in its unit), so "
+                    "each accessor equals the same closed form (strictly increasing, identical across crates).",
+    ),
+    "C11": dict(
+        verus=[dict(unit="vcp_decode")],
+        kani=[dict(crate="nexrad-decode", files=["c11.rs", "wire_layout.rs"], harnesses=[
+            dict(name="wire_layout_VcpHeader", what="22-byte header, every field at its ICD offset"),
+            dict(name="wire_layout_VcpElevation", what="46-byte cut block, every field at its ICD offset"),
+            dict(name="c11_angles", what="5 angle accessors == (raw>>3)*180/4096 for all 2^16 raws each"),
+            dict(name="c11_angles_uom", what="uom-typed angle accessors agree"),
+            dict(name="c11_azimuth_rate", what="azimuth rate == ((raw>>3)&0xFFF)*22.5/2048, negated on bit 15, all 2^16"),
+            dict(name="c11_thresholds", what="six thresholds == raw as i16 / 8"),
+            dict(name="c11_cut_bits", what="super-resolution and supplemental-data flags/sub-fields == documented bits, all values"),
+            dict(name="c11_cut_codes", what="channel configuration / waveform codes, all 2^8"),
+            dict(name="c11_header_bits", what="vcp_sequencing / vcp_supplemental_data sub-fields == documented bits, all 2^16"),
+            dict(name="c11_header_codes", what="pattern type, pulse width, doppler resolution codes"),
+        ])],
+        trusted_base=STD_TRUST + KANI_TRUST + [
+            "f64::powf(2.0, k) for integer k in [-15,0] is the exact power of two (stub asserts the call-site precondition)",
+            "reader model + deserialize contract for Header(22)/ElevationDataBlock(46) (the latter proved by the two layout harnesses)"],
+        explanation="Cut loop proved unbounded by Verus on the extracted decoder (exactly the declared number of 46-byte windows, "
+                    "Err iff the declared structure does not fit); layouts and all scaled/bit-field accessors by complete Kani harnesses.",
+    ),
+    "C12": dict(
+        verus=[dict(unit="alarm_table")],
+        kani=[dict(crate="nexrad-decode", files=["c12.rs", "wire_layout.rs"], harnesses=[
+            dict(name="wire_layout_RdaStatus", what="120 bytes / 60 halfwords, every field at its ICD Table IV position"),
+            dict(name="c12_codes_status_words", what="status / operability / control / aux power: documented code -> documented meaning"),
+            dict(name="c12_codes_mode_words", what="authorization, mode, super-res, spot blanking, TPS, RMS, perf check, command ack, channel control"),
+            dict(name="c12_flags", what="data-transmission, scan/data and alarm-summary flags == documented bit for all 2^16 words"),
+            dict(name="c12_scaled", what="raw/100, build-number rule, VCP magnitude/sign"),
+            dict(name="c12_cmd_status", what="clutter mitigation decision status codes"),
+            dict(name="c12_alarm_list", what="alarm_messages(): definitions of non-zero codes in message order, 14 symbolic slots (get_alarm_message replaced by the contract Verus proves)"),
+        ])],
+        trusted_base=STD_TRUST + KANI_TRUST + [
+            "oracle for 'documented' is the field documentation in /repo (ICD text unavailable offline)",
+            "cross-engine hand-over: c12_alarm_list uses a stub with exactly the postcondition Verus proves for get_alarm_message"],
+        explanation="Layout by a complete Kani harness through serde/bincode; every coded/flag/scaled accessor over its full "
+                    "2^16 domain; the 2374-line alarm match proved by Verus for all u16.",
+    ),
+    "C13": dict(
+        verus=[dict(unit="cfm_decode")],
+        kani=[dict(crate="nexrad-decode", files=["c13.rs", "c08.rs", "wire_layout.rs"], harnesses=[
+            dict(name="wire_layout_CfmHeader", what="6-byte header layout"),
+            dict(name="wire_layout_AzimuthSegmentHeader", what="2-byte azimuth segment header"),
+            dict(name="wire_layout_RangeZone", what="4-byte range zone"),
+            dict(name="c13_op_code", what="op codes 0,1,2 -> bypass / bypass map in control / force"),
+            dict(name="c08_accessor_cfm_header", what="generation date-time == get_datetime(date, minutes(time))"),
+            dict(name="c08_get_datetime_contract_minutes", what="get_datetime contract (minutes domain)"),
+        ])],
+        trusted_base=STD_TRUST + KANI_TRUST + ["reader model + deserialize contract (layouts proved by the three layout harnesses)"],
+        explanation="decode_clutter_filter_map extracted verbatim; three nested loop invariants over a ghost cursor prove the "
+                    "decoded structure == the byte structure (numbering, 360 azimuths, declared zone counts, each zone from its own "
+                    "4 bytes) and Err iff the body ends early, for every input.",
+    ),
+    "C01": dict(
+        verus=[dict(unit="volume_scan"), dict(unit="framing"), dict(unit="sweep")],
+        trusted_base=STD_TRUST + [
+            "bzip2 (C library behind FFI): BzDecoder + read_to_end yield unbz(bytes) or an error",
+            "std::io reader model (read_exact consumes exactly |buf| bytes); Cursor::new(data) starts with all of data remaining",
+            "decode_messages contract used by volume_scan is the postcondition proved in unit framing (hand-over by identical clause text)",
+            "into_radial contract radial_of(m): what it is, is decided by the C07 Kani harnesses",
+            "type-31 consumed-length contract (bounded Kani evidence only, C02)",
+        ],
+        not_decided=[],
+        explanation="File::scan, Record::{messages,decompress,compressed,data}, File::records, split_compressed_records, "
+                    "Sweep::from_radials, Scan::new, Message::into_contents extracted verbatim (real struct definitions of all "
+                    "three crates under their real module paths) and proved: scan == fold of the property's spec over the record "
+                    "tiling / unbz / decode_stream / radial_of, sweeps == maximal runs whose concatenation is that radial list, "
+                    "VCP number == first VOL block's, Err iff a stage fails or no VOL block exists. No bound on records, "
+                    "messages, elevations or radials.",
+    ),
 }
 
 NOT_APPLICABLE = {
